@@ -295,8 +295,34 @@ func runCheck(args []string) int {
 			}
 		}
 	}
-	for _, d := range drift {
-		lines = append(lines, fmt.Sprintf("UNDECIDED property=%s reason=contract-drift %s", id, d))
+	// A function listed under contract that can no longer be brought under its contract (the
+	// contract does not bind to the code any more, or the code left the supported subset) fails
+	// the obligation "<function>/contract/applies": everything proved about it is gone.
+	listed := map[string]bool{}
+	for _, f := range cfg.Functions {
+		listed[f] = true
+	}
+	var lost []string
+	for f, u := range e.unsup {
+		if listed[f] {
+			lost = append(lost, f+": "+strings.Join(dedupe(u), "; "))
+		}
+	}
+	lost = append(lost, drift...)
+	sort.Strings(lost)
+	for _, d := range lost {
+		name := d
+		if i := strings.Index(d, ": "); i > 0 {
+			name = d[:i]
+		}
+		p := filepath.Join(replayDir, safeName.ReplaceAllString(name, "_")+"_contract_applies.json")
+		js, _ := json.MarshalIndent(map[string]interface{}{"property": id, "obligation": name + "/contract/applies", "class": "contract",
+			"description": "the contract of this function no longer applies to the code in the working tree, so none of its obligations can be generated",
+			"verifier_output": d}, "", " ")
+		os.WriteFile(p, js, 0o644)
+		lines = append(lines, fmt.Sprintf("VIOLATION property=%s replay=%s no-failing-input-found", id, p))
+		violations++
+		exit = 1
 	}
 	// machinery sanity
 	broken := ""
